@@ -98,10 +98,14 @@ func selfTestGlob(r *ev.Run) {
 	m := newCAS()
 	fixed := [][2]string{{"/tables/*", "/tables/foo"}, {"/tables/*", "/tables/foo/lease"}, {"/tables/*", "/tables/"}, {"a[", "a"}, {"[]a]", "a"}, {"[^/]", "/"},
 		{"\\", ""}, {"a\\", "a"}, {"[a-]", "a"}, {"[-a]", "a"}, {"*[", "x"}, {"**", "ab"}, {"*?", "a"}, {"[a-c-e]", "d"}, {"[\\]]", "]"}, {"?", "日"}, {"[日-本]", "木"}, {"x*[", "y"}}
-	n := 0
+	n, quirk := 0, 0
 	check := func(pat, name string) {
 		n++
 		toks, ok := parseGlob(pat)
+		if ok && byteSkipQuirk(toks, name) {
+			quirk++
+			return // not modelled, see byteSkipQuirk
+		}
 		want, err := path.Match(pat, name)
 		got := ok && globMatch(toks, []rune(name))
 		if ok != (err == nil) || got != want {
@@ -123,7 +127,8 @@ func selfTestGlob(r *ev.Run) {
 		check(pat, name)
 		check(pat, g.key())
 	}
-	r.Count("selftest_glob_pairs_vs_path_Match", int64(n))
+	r.Count("selftest_glob_pairs_vs_path_Match", int64(n-quirk))
+	r.Count("selftest_glob_pairs_skipped_path_Match_byte_skip_quirk", int64(quirk))
 }
 
 func main() {
@@ -131,7 +136,7 @@ func main() {
 	r := ev.Start("C13", "exploration")
 	quiet()
 	r.Rule("layer 1: seeded update sequences (6-55 set/delete proposals over a pool of 3-7 keys: the callers' key shapes, clean path-like keys, nasty UTF-8 keys; versions current/zero/stale/future/other key's/random; " +
-		"sparse increasing indices; apply batches of 1-6) applied to two real LFSM replicas with different batching, lookups after every apply call, snapshot transfers (fresh or lagging target, save deferred past later updates) at random points. " +
+		"sparse increasing indices; apply batches of 1-6; in a fixed share of the cases a handful of values of 0, 1, 4095-4097, 65534-65537 (and a little below), 128 KiB or 1 MiB bytes, the largest one stored for sure and snapshotted while present) applied to two real LFSM replicas with different batching, lookups after every apply call, snapshot transfers (fresh or lagging target, save deferred past later updates) at random points. " +
 		"A sequence is non-trivial when it contains a rejection of a version the key really had earlier, a successful delete followed by a re-creation of the same key, and a snapshot taken strictly inside the sequence; distinct by hash of the judged update list. " +
 		"layer 2: 8 clients x 2 phases on a real RaftStore (restart in between), porcupine per key. layer 3: Lookup/SaveSnapshot concurrent with Update/RecoverFromSnapshot on one LFSM under -race")
 	r.Assume(
@@ -139,6 +144,7 @@ func main() {
 		"the data carried by a successful delete result is not judged (RaftStore.Delete discards it)",
 		"GetAll/GetAllValues answers are compared as sets of pairs / multisets of values (order is only required to be the same on all replicas)",
 		"malformed glob patterns (path.ErrBadPattern) are not modelled: replica agreement only",
+		"patterns in which '?' or a character class follows '*' are not modelled for keys that hold a multi-byte character: Go's path.Match lets '*' skip single bytes, so path.Match(\"*??\", \"\U0001F600\") is true although '?' is documented as one character; GetAll documents path.Match syntax and calls it (observed, replica agreement only)",
 		"List/ListDir are modelled only when the path and every stored key are clean non-root paths (semantics taken from the repository's kv tests: next path components below the directory, ListDir = those that have children); otherwise replica agreement only. Observed and not judged: List(\"/\") omits sub-directories",
 		"keys and values are valid UTF-8 (proposals and snapshots are JSON)",
 		"layer 2 reads are RaftStore.Get (a local read of the only replica) and are required to be linearizable with the updates of the same key; operations that end in an error other than version mismatch / not-exist stay open to the end of the history",
@@ -205,6 +211,16 @@ func main() {
 	r.FloorCount("concurrent_lookups", int64(r.Pick(5000, 200000)))
 	r.FloorCount("concurrent_lookups_overlapping_an_update", int64(r.Pick(1000, 100000)))
 	r.FloorCount("concurrent_snapshots_saved_and_restored", int64(r.Pick(150, 2000)))
+	// value sizes (a handful of sized cases per run, see sizeClassOf)
+	r.FloorCount("set_ok_value_size:~64KiB", int64(r.Pick(30, 1000)))
+	r.FloorCount("set_ok_value_size:128KiB", int64(r.Pick(6, 150)))
+	r.FloorCount("set_ok_value_size:1MiB", int64(r.Pick(2, 30)))
+	r.FloorCount("snapshots_largest_value:~64KiB", int64(r.Pick(30, 1000)))
+	r.FloorCount("snapshots_largest_value:128KiB", int64(r.Pick(8, 250)))
+	r.FloorCount("snapshots_largest_value:1MiB", int64(r.Pick(1, 20)))
+	r.FloorCount("concurrent_sized_value_windows", int64(r.Pick(6, 36)))
+	r.FloorCount("raftstore_sized_values_before_restart", int64(r.Pick(1, 25)))
+	r.FloorCount("raftstore_requested_snapshots", int64(r.Pick(1, 25)))
 	r.Finish()
 }
 
@@ -262,5 +278,10 @@ func probeUnjudged(r *ev.Run) {
 	}
 	got, err := kv.NewLFSM()(1, 2).Lookup(kv.QueryAll{Pattern: "["})
 	obs[`getall("[") on an empty store`] = render(got, err)
+	q := kv.NewLFSM()(1, 3)
+	if _, err := applyCuts(q, []opDesc{{Index: 1, Op: kv.UpdateOpSet, Key: "\U0001F600", Val: "v"}}, []int{1}); err == nil {
+		got, err = q.Lookup(kv.QueryAll{Pattern: "*??"})
+		obs[`getall("*??") on a store holding the one-character key U+1F600`] = render(got, err)
+	}
 	r.Extra("observed_not_judged", obs)
 }
